@@ -24,11 +24,11 @@ _m("C02", "every numflux dispatch of the real models is observed (after-hook on 
           "compares with the upwind physical flux where L, R and the Roe average are supercritical.  non-trivial: a call whose "
           "pairs are not all equal; distinct = hash(flux, gamma/g, first states).")
 
-_m("C03", "uniform states: rho,p,h over 10^+-3, Mach/Froude in {0,0.02,...,3} of either sign, any flow angle in 2D, every "
+_m("C03", "uniform states: rho,p,h over 10^+-3, Mach/Froude in {0,1e-7,...,0.02,...,3} of either sign, any flow angle in 2D, every "
           "model x flux x reconstruction x mesh kind x matching boundary pair (periodic, dirichlet, inlet x outlet on the upstream/"
           "downstream side, supersonic inlet with angle, walls), nozzle at rest with random section laws; rhs residual and the "
           "state after 1-7 steps of every integrator (dtlocal on/off) are compared with zero drift, normalised by the flux scale "
-          "rho*(|u|+c)^k/dx and the 1/M^2 conditioning of total-pressure inlets.  non-trivial: every case (a full scheme is run); "
+          "rho*(|u|+c)^k/dx; total-pressure conditions add eps/M to the tolerance.  non-trivial: every case (a full scheme is run); "
           "distinct = hash of configuration + state.")
 
 _m("C05", "every explicit integrator class (explicit, forwardeuler, rk2, rk2_heun, rk3_heun, rk3ssp, rk4, lsrk25bb, lsrk26bb, lsrk4) "
@@ -181,7 +181,7 @@ _ADDED = {
     "C03": "Also: fields built by fdata_fromprim from python scalars ([rho, [u, v], p]), large meshes, nozzle section laws that vanish exactly "
            "at a mesh face, jump, or are tiny/huge; same-parameter conditions on both sides of one model object (mirror_pairs). "
            "Supersonic inlet / outlet conditions on sides tangential to the flow."
-           " Inlet Mach numbers down to 1e-7 (conditioning eps/M added to the tolerance, never divided out of the residual).",
+           " Inlet Mach numbers down to 1e-7 (conditioning eps/M added to the tolerance, never divided out of the residual). Solve drift allowed round-off x the amplification the same solve applies to a 1e-12 perturbation (twin run, measured when the plain tolerance is exceeded): unstable fixed points of the insub / outsub_qtot closures = known finding D21 under its own key, other configurations amplifying > 1e4 counted as skipped.",
     "C04": "Also: arbitrary mesh origin and every class that builds a uniform mesh, maximum-norm order for the linear schemes, strong Riemann "
            "data (ratios 1e4, supersonic streams) on arbitrary meshes for the packaged reference, nozzle sections in any units. "
            "Expansions through the sonic point (and mirror images): the density jump at the sonic point must shrink under refinement; error decrease strict.",
